@@ -92,6 +92,41 @@ pub fn plan_c15(tier: &str, seed: u64) -> Plan {
     for s in all_strings(&alpha, n) {
         lines.push(format!("parse x{}", h(&s)));
     }
+    // long expressions: flat chains of up to 300 operands, groups nested up to 80 deep, chains inside nested groups,
+    // right- and left-leaning alternations (the grammar puts no bound on either; a parser may)
+    {
+        let atom = |k: usize| format!("D{}::A{}", k % 7, k);
+        let mut longs: Vec<String> = vec![];
+        for n in [8usize, 17, 18, 19, 33, 64, 65, 130, 300] {
+            longs.push((0..n).map(atom).collect::<Vec<_>>().join(" || "));
+            longs.push((0..n).map(atom).collect::<Vec<_>>().join(" && "));
+            longs.push((0..n).map(|k| format!("{} && {}", atom(2 * k), atom(2 * k + 1))).collect::<Vec<_>>().join(" || "));
+            // (a conjunction of n binary disjunctions has 2^n clauses in normal form: small n only)
+            if n <= 8 {
+                longs.push((0..n).map(|k| format!("({} || {})", atom(2 * k), atom(2 * k + 1))).collect::<Vec<_>>().join(" && "));
+            }
+        }
+        for d in [4usize, 15, 16, 17, 18, 40, 80] {
+            longs.push(format!("{}{}{}", "(".repeat(d), atom(1), ")".repeat(d)));
+            longs.push(format!("{}{} || {}{}", "(".repeat(d), atom(1), atom(2), ")".repeat(d)));
+            // right-leaning: A && (B || (C && (D || ...)))
+            let mut t = atom(d);
+            for k in (0..d).rev() {
+                t = if k % 2 == 0 { format!("{} && ({})", atom(k), t) } else { format!("{} || ({})", atom(k), t) };
+            }
+            longs.push(t);
+            // left-leaning: (((A || B) && C) || D) ...
+            let mut t = atom(0);
+            for k in 1..=d {
+                t = if k % 2 == 0 { format!("({}) && {}", t, atom(k)) } else { format!("({}) || {}", t, atom(k)) };
+            }
+            longs.push(t);
+            longs.push(format!("S::T && {}{}{}", "(".repeat(d.min(8)), (0..12).map(atom).collect::<Vec<_>>().join(" || "), ")".repeat(d.min(8))));
+        }
+        for s in longs {
+            lines.push(format!("parse x{}", h(&s)));
+        }
+    }
     // documented test strings and targeted non-ASCII shapes
     for s in [
         "(D1::A && (D2::A) || D2::B)", "D1::A && D2::A || D2::B", "D1::A && (D2::A || D2::B)", "D1::A (D2::A || D2::B)",
@@ -143,7 +178,7 @@ pub fn plan_c15(tier: &str, seed: u64) -> Plan {
         per_line: true,
         cases: vec![Case { expect, name: format!("c15-exhaustive-len{n}+formulas"), lines }],
         exhaustive: true,
-        rule: format!("every string over {{A,é,:,&,|,(,),space,*,U+00A0}} of length <= {n} (exhaustive), the documented examples and targeted non-ASCII shapes, long well-formed and malformed expressions with multi-byte names (28 templates covering every error path x 5 names x 8 byte shifts, each also nested in a group), {nf} random printed strings (random spacing, redundant parentheses, juxtaposition) and {ng} formulas of the documented grammar (AND before OR, parentheses, && or juxtaposition, Unicode spacing, multi-byte and spaced names) whose parsed policy and DNF are compared with the intended formula under all 64 assignments, on the implementation (specification oracle) and on the model; a case is one string; parse result (AST and DNF, or error) of the implementation is compared with the Lean model; distinct = distinct (input, outcome) pairs"),
+        rule: format!("every string over {{A,é,:,&,|,(,),space,*,U+00A0}} of length <= {n} (exhaustive), the documented examples and targeted non-ASCII shapes, long expressions (flat chains of up to 300 operands, groups nested up to 80 deep, leaning alternations), long well-formed and malformed expressions with multi-byte names (28 templates covering every error path x 5 names x 8 byte shifts, each also nested in a group), {nf} random printed strings (random spacing, redundant parentheses, juxtaposition) and {ng} formulas of the documented grammar (AND before OR, parentheses, && or juxtaposition, Unicode spacing, multi-byte and spaced names) whose parsed policy and DNF are compared with the intended formula under all 64 assignments, on the implementation (specification oracle) and on the model; a case is one string; parse result (AST and DNF, or error) of the implementation is compared with the Lean model; distinct = distinct (input, outcome) pairs"),
     }
 }
 
